@@ -46,7 +46,36 @@ impl FixtureDatabase {
         for stmt in body {
             match stmt {
                 Stmt::Expr(expr_stmt) => {
-                    if let Expr::Yield(_) | Expr::YieldFrom(_) = &*expr_stmt.value {
+                    if Self::first_yield_offset(&expr_stmt.value).is_some() {
+                        return true;
+                    }
+                }
+                // A yield in expression position makes the function a generator just the same
+                Stmt::Assign(assign) => {
+                    if Self::first_yield_offset(&assign.value).is_some() {
+                        return true;
+                    }
+                }
+                Stmt::AugAssign(aug_assign) => {
+                    if Self::first_yield_offset(&aug_assign.value).is_some() {
+                        return true;
+                    }
+                }
+                Stmt::AnnAssign(ann_assign) => {
+                    if ann_assign
+                        .value
+                        .as_ref()
+                        .is_some_and(|value| Self::first_yield_offset(value).is_some())
+                    {
+                        return true;
+                    }
+                }
+                Stmt::Return(ret) => {
+                    if ret
+                        .value
+                        .as_ref()
+                        .is_some_and(|value| Self::first_yield_offset(value).is_some())
+                    {
                         return true;
                     }
                 }
